@@ -24,24 +24,24 @@ package compare
 //@ func Cmp[*]
 //@   safety[C15]
 //@   ensures range[C15]: result == -1 || result == 0 || result == 1
-//@   ensures mathorder.int[C15,C01,C05]: typeis(b, int) && !typeis(b, T) && spec.exact(a) && spec.exact(b) ==> result == spec.sgn3(spec.val(a), spec.val(b))
-//@   ensures mathorder.int8[C15,C01,C05]: typeis(b, int8) && !typeis(b, T) && spec.exact(a) && spec.exact(b) ==> result == spec.sgn3(spec.val(a), spec.val(b))
-//@   ensures mathorder.int16[C15,C01,C05]: typeis(b, int16) && !typeis(b, T) && spec.exact(a) && spec.exact(b) ==> result == spec.sgn3(spec.val(a), spec.val(b))
-//@   ensures mathorder.int32[C15,C01,C05]: typeis(b, int32) && !typeis(b, T) && spec.exact(a) && spec.exact(b) ==> result == spec.sgn3(spec.val(a), spec.val(b))
-//@   ensures mathorder.int64[C15,C01,C05]: typeis(b, int64) && !typeis(b, T) && spec.exact(a) && spec.exact(b) ==> result == spec.sgn3(spec.val(a), spec.val(b))
-//@   ensures mathorder.uint[C15,C01,C05]: typeis(b, uint) && !typeis(b, T) && spec.exact(a) && spec.exact(b) ==> result == spec.sgn3(spec.val(a), spec.val(b))
-//@   ensures mathorder.uint8[C15,C01,C05]: typeis(b, uint8) && !typeis(b, T) && spec.exact(a) && spec.exact(b) ==> result == spec.sgn3(spec.val(a), spec.val(b))
-//@   ensures mathorder.uint16[C15,C01,C05]: typeis(b, uint16) && !typeis(b, T) && spec.exact(a) && spec.exact(b) ==> result == spec.sgn3(spec.val(a), spec.val(b))
-//@   ensures mathorder.uint32[C15,C01,C05]: typeis(b, uint32) && !typeis(b, T) && spec.exact(a) && spec.exact(b) ==> result == spec.sgn3(spec.val(a), spec.val(b))
-//@   ensures mathorder.uint64[C15,C01,C05]: typeis(b, uint64) && !typeis(b, T) && spec.exact(a) && spec.exact(b) ==> result == spec.sgn3(spec.val(a), spec.val(b))
-//@   ensures mathorder.float32[C15,C01,C05]: typeis(b, float32) && !typeis(b, T) && spec.exact(a) && spec.exact(b) ==> result == spec.sgn3(spec.val(a), spec.val(b))
-//@   ensures mathorder.float64[C15,C01,C05]: typeis(b, float64) && !typeis(b, T) && spec.exact(a) && spec.exact(b) ==> result == spec.sgn3(spec.val(a), spec.val(b))
+//@   ensures mathorder.int[C15,C01,C05,C02,C03,C04]: typeis(b, int) && !typeis(b, T) && spec.exact(a) && spec.exact(b) ==> result == spec.sgn3(spec.val(a), spec.val(b))
+//@   ensures mathorder.int8[C15,C01,C05,C02,C03,C04]: typeis(b, int8) && !typeis(b, T) && spec.exact(a) && spec.exact(b) ==> result == spec.sgn3(spec.val(a), spec.val(b))
+//@   ensures mathorder.int16[C15,C01,C05,C02,C03,C04]: typeis(b, int16) && !typeis(b, T) && spec.exact(a) && spec.exact(b) ==> result == spec.sgn3(spec.val(a), spec.val(b))
+//@   ensures mathorder.int32[C15,C01,C05,C02,C03,C04]: typeis(b, int32) && !typeis(b, T) && spec.exact(a) && spec.exact(b) ==> result == spec.sgn3(spec.val(a), spec.val(b))
+//@   ensures mathorder.int64[C15,C01,C05,C02,C03,C04]: typeis(b, int64) && !typeis(b, T) && spec.exact(a) && spec.exact(b) ==> result == spec.sgn3(spec.val(a), spec.val(b))
+//@   ensures mathorder.uint[C15,C01,C05,C02,C03,C04]: typeis(b, uint) && !typeis(b, T) && spec.exact(a) && spec.exact(b) ==> result == spec.sgn3(spec.val(a), spec.val(b))
+//@   ensures mathorder.uint8[C15,C01,C05,C02,C03,C04]: typeis(b, uint8) && !typeis(b, T) && spec.exact(a) && spec.exact(b) ==> result == spec.sgn3(spec.val(a), spec.val(b))
+//@   ensures mathorder.uint16[C15,C01,C05,C02,C03,C04]: typeis(b, uint16) && !typeis(b, T) && spec.exact(a) && spec.exact(b) ==> result == spec.sgn3(spec.val(a), spec.val(b))
+//@   ensures mathorder.uint32[C15,C01,C05,C02,C03,C04]: typeis(b, uint32) && !typeis(b, T) && spec.exact(a) && spec.exact(b) ==> result == spec.sgn3(spec.val(a), spec.val(b))
+//@   ensures mathorder.uint64[C15,C01,C05,C02,C03,C04]: typeis(b, uint64) && !typeis(b, T) && spec.exact(a) && spec.exact(b) ==> result == spec.sgn3(spec.val(a), spec.val(b))
+//@   ensures mathorder.float32[C15,C01,C05,C02,C03,C04]: typeis(b, float32) && !typeis(b, T) && spec.exact(a) && spec.exact(b) ==> result == spec.sgn3(spec.val(a), spec.val(b))
+//@   ensures mathorder.float64[C15,C01,C05,C02,C03,C04]: typeis(b, float64) && !typeis(b, T) && spec.exact(a) && spec.exact(b) ==> result == spec.sgn3(spec.val(a), spec.val(b))
 //@   ensures same-type.lt[C15,C01,C05,C02,C03,C04]: typeis(b, T) && a < b.(T) ==> result == -1
 //@   ensures same-type.eq[C15,C01,C05,C02,C03,C04]: typeis(b, T) && a <= b.(T) && a >= b.(T) ==> result == 0
 //@   ensures same-type.gt[C15,C01,C05,C02,C03,C04]: typeis(b, T) && a > b.(T) ==> result == 1
-//@   ensures mathorder.same.lt[C15,C01,C05]: typeis(b, T) && spec.exact(a) && spec.exact(b) && spec.sgn3(spec.val(a), spec.val(b)) == -1 ==> result == -1
-//@   ensures mathorder.same.eq[C15,C01,C05]: typeis(b, T) && spec.exact(a) && spec.exact(b) && spec.sgn3(spec.val(a), spec.val(b)) == 0 ==> result == 0
-//@   ensures mathorder.same.gt[C15,C01,C05]: typeis(b, T) && spec.exact(a) && spec.exact(b) && spec.sgn3(spec.val(a), spec.val(b)) == 1 ==> result == 1
+//@   ensures mathorder.same.lt[C15,C01,C05,C02,C03,C04]: typeis(b, T) && spec.exact(a) && spec.exact(b) && spec.sgn3(spec.val(a), spec.val(b)) == -1 ==> result == -1
+//@   ensures mathorder.same.eq[C15,C01,C05,C02,C03,C04]: typeis(b, T) && spec.exact(a) && spec.exact(b) && spec.sgn3(spec.val(a), spec.val(b)) == 0 ==> result == 0
+//@   ensures mathorder.same.gt[C15,C01,C05,C02,C03,C04]: typeis(b, T) && spec.exact(a) && spec.exact(b) && spec.sgn3(spec.val(a), spec.val(b)) == 1 ==> result == 1
 //@   modifies nothing
 //@
 //@ func compare[*]
@@ -54,8 +54,8 @@ package compare
 //@ func Compare
 //@   safety[C15]
 //@   ensures range[C15]: result == -1 || result == 0 || result == 1
-//@   ensures local order[C15,C01,C05]: (spec.numeric(a) ==> spec.exact(a)) && (spec.numeric(b) ==> spec.exact(b)) ==> result == spec.CompareSpec(a, b)
-//@   ensures defn abstract[C15,C01,C05]: (spec.numeric(a) ==> spec.exact(a)) && (spec.numeric(b) ==> spec.exact(b)) ==> result == spec.Cmp(a, b)
+//@   ensures local order[C15,C01,C05,C02,C03,C04]: (spec.numeric(a) ==> spec.exact(a)) && (spec.numeric(b) ==> spec.exact(b)) ==> result == spec.CompareSpec(a, b)
+//@   ensures defn abstract[C15,C01,C05,C02,C03,C04]: (spec.numeric(a) ==> spec.exact(a)) && (spec.numeric(b) ==> spec.exact(b)) ==> result == spec.Cmp(a, b)
 //@   modifies nothing
 //@
 //@ lemma reflexive[C15]: (forall ((a Any)) (=> (=> (spec!numeric a) (spec!exact a)) (= (spec!CompareSpec a a) #x0000000000000000)))
